@@ -63,93 +63,48 @@ func findCloseLoops(w *World, fi *FuncInfo) []*closeLoop {
 	info := fi.Pkg.TypesInfo
 	var loops []*closeLoop
 	ast.Inspect(fi.Decl.Body, func(n ast.Node) bool {
-		switch s := n.(type) {
-		case *ast.RangeStmt:
-			coll := objOf(info, s.X)
-			var elemObj types.Object
-			dir := "fwd"
-			if tv, ok := info.Types[s.X]; ok {
-				if _, isMap := tv.Type.Underlying().(*types.Map); isMap {
-					dir = "map"
-					if s.Key != nil {
-						elemObj = objOf(info, s.Key)
-					}
-				}
-			}
-			if dir == "fwd" && s.Value != nil {
-				elemObj = objOf(info, s.Value)
-			}
-			isElem := func(e ast.Expr) bool {
-				if elemObj != nil && objOf(info, e) == elemObj {
-					return true
-				}
-				// coll[i] with i the range key
-				if ix, ok := unparen(e).(*ast.IndexExpr); ok && s.Key != nil {
-					return objOf(info, ix.X) == coll && coll != nil && objOf(info, ix.Index) == objOf(info, s.Key)
-				}
-				return false
-			}
-			if l := closeLoopBody(info, s, s.Body, isElem); l != nil {
-				l.coll, l.dir = coll, dir
-				if coll == nil {
-					// ranging directly over a field
-					if fv := fieldOf(info, s.X); fv != nil {
-						l.field, l.origin = fv, "direct"
-					}
-				}
-				loops = append(loops, l)
-			}
-		case *ast.ForStmt:
-			// for i := <init>; <cond>; <post> { ... X[i].Close() ... }
-			var iObj types.Object
-			if as, ok := s.Init.(*ast.AssignStmt); ok && len(as.Lhs) == 1 {
-				iObj = objOf(info, as.Lhs[0])
-			}
-			if iObj == nil {
-				return true
-			}
-			var coll types.Object
-			isElem := func(e ast.Expr) bool {
-				ix, ok := unparen(e).(*ast.IndexExpr)
-				if !ok || objOf(info, ix.Index) != iObj {
-					return false
-				}
-				o := objOf(info, ix.X)
-				if o == nil {
-					return false
-				}
-				if coll == nil {
-					coll = o
-				}
-				return o == coll
-			}
-			if l := closeLoopBody(info, s, s.Body, isElem); l != nil {
-				l.coll = coll
-				l.dir, l.dirWhy = indexLoopDirection(info, s, iObj, coll)
-				// the body must not modify i or the collection
-				ast.Inspect(s.Body, func(m ast.Node) bool {
-					switch x := m.(type) {
-					case *ast.AssignStmt:
-						for _, lh := range x.Lhs {
-							if o := objOf(info, lh); o != nil && (o == iObj || o == coll) {
-								l.problem = "the loop body assigns to the loop index or the collection"
-							}
-						}
-					case *ast.IncDecStmt:
-						if objOf(info, x.X) == iObj {
-							l.problem = "the loop body changes the loop index"
-						}
-					}
-					return true
-				})
-				loops = append(loops, l)
+		st, ok := n.(ast.Stmt)
+		if !ok {
+			return true
+		}
+		il := asIterLoop(info, st)
+		if il == nil {
+			return true
+		}
+		l := closeLoopBody(info, st, il.Body, il.IsElem)
+		if l == nil {
+			return true
+		}
+		l.coll, l.dir, l.dirWhy = il.CollObj, il.Dir, il.DirWhy
+		if il.CollObj == nil {
+			if fv := fieldOf(info, il.Coll); fv != nil {
+				l.field, l.origin = fv, "direct"
 			}
 		}
+		if _, isFor := st.(*ast.ForStmt); isFor {
+			// the body must not modify the index or the collection
+			ast.Inspect(il.Body, func(m ast.Node) bool {
+				switch x := m.(type) {
+				case *ast.AssignStmt:
+					for _, lh := range x.Lhs {
+						if o := objOf(info, lh); o != nil && (o == il.Index || (il.CollObj != nil && o == il.CollObj)) {
+							l.problem = "the loop body assigns to the loop index or the collection"
+						}
+					}
+				case *ast.IncDecStmt:
+					if objOf(info, x.X) == il.Index {
+						l.problem = "the loop body changes the loop index"
+					}
+				}
+				return true
+			})
+		}
+		loops = append(loops, l)
 		return true
 	})
 	for _, l := range loops {
 		if l.coll != nil && l.field == nil {
-			l.field, l.origin = localOrigin(fi, l.coll)
+			l.field, l.origin = localOrigin(w, fi, l.coll)
 		}
 	}
 	return loops
@@ -344,7 +299,7 @@ func isNilTestOf(info *types.Info, cond ast.Expr, isElem func(ast.Expr) bool, wa
 // localOrigin resolves where a local collection variable comes from:
 // "copy": x := recv.f (single assignment); "collect": x built by appending every
 // key of a range over recv.f.
-func localOrigin(fi *FuncInfo, obj types.Object) (*types.Var, string) {
+func localOrigin(w *World, fi *FuncInfo, obj types.Object) (*types.Var, string) {
 	info := fi.Pkg.TypesInfo
 	var assigns []*ast.AssignStmt
 	ast.Inspect(fi.Decl.Body, func(n ast.Node) bool {
@@ -360,6 +315,38 @@ func localOrigin(fi *FuncInfo, obj types.Object) (*types.Var, string) {
 	if len(assigns) == 1 && len(assigns[0].Lhs) == 1 && len(assigns[0].Rhs) == 1 {
 		if fv := fieldOf(info, assigns[0].Rhs[0]); fv != nil {
 			return fv, "copy"
+		}
+		// x := recv.helper(): the helper returns a local with an origin of its own
+		if c, ok := unparen(assigns[0].Rhs[0]).(*ast.CallExpr); ok && w != nil {
+			if cal := callee(info, c); cal != nil && !cal.Exported() {
+				if t := w.Decls[cal]; t != nil && t.Pkg == fi.Pkg {
+					var fv *types.Var
+					how := ""
+					consistent := true
+					ast.Inspect(t.Decl.Body, func(n ast.Node) bool {
+						if _, isLit := n.(*ast.FuncLit); isLit {
+							return false
+						}
+						if ret, ok := n.(*ast.ReturnStmt); ok && len(ret.Results) == 1 {
+							if o := objOf(t.Pkg.TypesInfo, ret.Results[0]); o != nil {
+								f2, h2 := localOrigin(w, t, o)
+								if f2 == nil || (fv != nil && f2 != fv) {
+									consistent = false
+								}
+								fv, how = f2, h2
+							} else if f2 := fieldOf(t.Pkg.TypesInfo, ret.Results[0]); f2 != nil {
+								fv, how = f2, "copy"
+							} else {
+								consistent = false
+							}
+						}
+						return true
+					})
+					if consistent && fv != nil {
+						return fv, how
+					}
+				}
+			}
 		}
 	}
 	// collect: one make(...) and one append inside a range over a field
